@@ -9,7 +9,9 @@ import (
 	"strings"
 
 	"google.golang.org/grpc"
+	"google.golang.org/grpc/codes"
 	"google.golang.org/grpc/metadata"
+	"google.golang.org/grpc/status"
 	"google.golang.org/protobuf/proto"
 	"google.golang.org/protobuf/reflect/protoreflect"
 	"google.golang.org/protobuf/reflect/protoregistry"
@@ -26,6 +28,11 @@ type nameCase struct {
 	Name    string `json:"name"`
 	Stream  bool   `json:"stream_interceptor"`
 	MsgSeed int64  `json:"msg_seed"`
+	// stream interceptor only: how the underlying ServerStream.RecvMsg fills the handler's message
+	// (mg merge as pkg/wrap does, ow overwrite as grpc's codec does, f<tok> fail, of<tok> overwrite then fail)
+	// and whether the handler's message already holds strings when RecvMsg is called
+	Transport string `json:"transport,omitempty"`
+	Prefilled bool   `json:"handler_message_prefilled,omitempty"`
 }
 
 func fieldTok(m protoreflect.Message, fd protoreflect.FieldDescriptor) string {
@@ -58,8 +65,10 @@ func msgTok(m proto.Message) string {
 }
 
 type oneShotStream struct {
-	req proto.Message
-	got bool
+	req       proto.Message
+	got       bool
+	transport string
+	failure   error
 }
 
 func (s *oneShotStream) SetHeader(metadata.MD) error  { return nil }
@@ -72,11 +81,31 @@ func (s *oneShotStream) RecvMsg(m any) error {
 		return io.EOF
 	}
 	s.got = true
-	proto.Merge(m.(proto.Message), s.req)
-	return nil
+	return transportRecv(s.transport, s.failure, s.req, m)
 }
 
-// runNameCase returns (model input fields, code's resulting fields, before, after).
+// prefill sets every singular string field without explicit presence (top level) to a marker.
+func prefill(m proto.Message) {
+	fds := m.ProtoReflect().Descriptor().Fields()
+	for i := 0; i < fds.Len(); i++ {
+		fd := fds.Get(i)
+		if fd.Kind() == protoreflect.StringKind && !fd.IsList() && !fd.IsMap() && !fd.HasPresence() {
+			m.ProtoReflect().Set(fd, protoreflect.ValueOfString(fmt.Sprintf("stale%d", i)))
+		}
+	}
+}
+
+// nameFailure is the error of a failing transport (tok from "f<tok>" / "of<tok>").
+func nameFailure(transport string) (error, string) {
+	i := strings.IndexByte(transport, 'f')
+	if i < 0 {
+		return nil, "-"
+	}
+	return status.Error(codes.Unavailable, "tok"+transport[i+1:]), transport[i+1:]
+}
+
+// runNameCase returns (model line, code's answer, what the handler was due to see before the interceptor
+// acted (the request; for a stream: what the transport left in the handler's message), what it saw).
 func runNameCase(c nameCase) (string, string, proto.Message, proto.Message, error) {
 	rng := lib.NewRand(c.MsgSeed)
 	req, err := randomMessage(rng, protoreflect.FullName(c.Message))
@@ -85,18 +114,47 @@ func runNameCase(c nameCase) (string, string, proto.Message, proto.Message, erro
 	}
 	setName(req, c.Name)
 	before := proto.Clone(req)
-	in := msgTok(req)
+	in := fmt.Sprintf("name %s %s", escTok(c.Default), msgTok(req))
 	var seen proto.Message
 	if c.Stream {
+		m0, _ := newMessage(protoreflect.FullName(c.Message))
+		m0s := "z"
+		if c.Prefilled {
+			prefill(m0)
+			m0s = msgTok(m0)
+		}
+		tr := c.Transport
+		if tr == "" {
+			tr = "mg"
+		}
+		in = fmt.Sprintf("nrecv %s %s %s %s", escTok(c.Default), tr, m0s, msgTok(req))
+		// the independent expectation of what the transport leaves in the handler's message
+		switch {
+		case tr == "mg":
+			before = proto.Clone(m0)
+			proto.Merge(before, req)
+		case tr[0] == 'f':
+			before = proto.Clone(m0)
+		}
+		failure, ftok := nameFailure(tr)
 		ic := namemw.IfAbsentStreamInterceptor(c.Default)
-		err = ic(nil, &oneShotStream{req: req}, &grpc.StreamServerInfo{}, func(srv any, ss grpc.ServerStream) error {
-			m, _ := newMessage(protoreflect.FullName(c.Message))
-			if e := ss.RecvMsg(m); e != nil {
-				return e
-			}
-			seen = m
+		var rerr error
+		err = ic(nil, &oneShotStream{req: req, transport: tr, failure: failure}, &grpc.StreamServerInfo{}, func(srv any, ss grpc.ServerStream) error {
+			rerr = ss.RecvMsg(m0)
+			seen = m0
 			return nil
 		})
+		if err != nil || seen == nil {
+			return in, fmt.Sprintf("error:%v", err), before, nil, nil
+		}
+		etok := "-"
+		if rerr != nil {
+			etok = "?" + strings.ReplaceAll(rerr.Error(), " ", "_")
+			if sameStatus(rerr, failure) {
+				etok = ftok
+			}
+		}
+		return in, msgTok(seen) + " err=" + etok, before, seen, nil
 	} else {
 		ic := namemw.IfAbsentUnaryInterceptor(c.Default)
 		_, err = ic(context.Background(), req, &grpc.UnaryServerInfo{}, func(ctx context.Context, r any) (any, error) {
@@ -117,7 +175,15 @@ func monitorName(mon *lib.Monitor, c nameCase, before, after proto.Message) {
 		return
 	}
 	want := proto.Clone(before)
-	if c.Name == "" {
+	if strings.Contains(c.Transport, "f") {
+		// RecvMsg failed: the error is the transport's (compared by the tie), the message is left as the
+		// transport left it
+		if !proto.Equal(want, after) {
+			mon.Violate(sig("touched-after-recv-error"), "after a failing RecvMsg the interceptor must leave the message alone", c, fmt.Sprint(want), fmt.Sprint(after))
+		}
+		return
+	}
+	if nameIsEmpty(want) {
 		setName(want, c.Default)
 	}
 	if !proto.Equal(want, after) {
@@ -130,6 +196,12 @@ func monitorName(mon *lib.Monitor, c nameCase, before, after proto.Message) {
 		}
 		mon.Violate(sig(class), "the interceptor fills in only empty names and changes nothing else", c, fmt.Sprint(want), fmt.Sprint(after))
 	}
+}
+
+// nameIsEmpty: the message has a singular string field `name` and it is empty.
+func nameIsEmpty(m proto.Message) bool {
+	fd := m.ProtoReflect().Descriptor().Fields().ByTextName("name")
+	return fd != nil && fd.Kind() == protoreflect.StringKind && !fd.IsList() && m.ProtoReflect().Get(fd).String() == ""
 }
 
 // randName: a non-empty name of 1-12 characters (also blank-looking and path-like ones).
@@ -183,6 +255,7 @@ func runName(f lib.Flags, res *lib.Result, drv *lib.Driver) {
 	reps := f.N(1, 6)
 	var cases []nameCase
 	var lines, answers []string
+	combo := 0
 	for ti, t := range names {
 		nms := []string{"", "dev1", randName(rng)}
 		// unusual non-empty names: each message type gets the blank ones and a rotating share of the rest
@@ -195,9 +268,20 @@ func runName(f lib.Flags, res *lib.Result, drv *lib.Driver) {
 				if d == " " && nm != "" && nm != " " {
 					continue
 				}
-				for _, st := range []bool{false, true} {
+				type variant struct {
+					stream    bool
+					transport string
+					prefilled bool
+				}
+				k := combo // alternates per (message type, name, default) combination
+				combo++
+				// the stream interceptor over a merging, an overwriting and a failing transport, the handler's
+				// message fresh or already holding strings (alternating)
+				variants := []variant{{false, "", false}, {true, "mg", k%2 == 1}, {true, "ow", k%2 == 0}, {true, []string{"f14", "of14"}[k/2%2], k%4 == 0}}
+				for _, v := range variants {
+					st := v.stream
 					for r := 0; r < reps; r++ {
-						c := nameCase{"name", t, d, nm, st, rng.Int63() >> 12}
+						c := nameCase{"name", t, d, nm, st, rng.Int63() >> 12, v.transport, v.prefilled}
 						var in, out string
 						var before, after proto.Message
 						var err error
@@ -211,10 +295,10 @@ func runName(f lib.Flags, res *lib.Result, drv *lib.Driver) {
 						} else {
 							monitorName(mon, c, before, after)
 						}
-						mon.Eval(fmt.Sprintf("%s/%s/%s/%v", t, nm, d, st), true, nil)
+						mon.Eval(fmt.Sprintf("%s/%s/%s/%v/%s/%v", t, nm, d, st, v.transport, v.prefilled), true, nil)
 						cases = append(cases, c)
 						answers = append(answers, out)
-						lines = append(lines, fmt.Sprintf("name %s %s", escTok(d), in))
+						lines = append(lines, in)
 					}
 				}
 			}
@@ -226,7 +310,10 @@ func runName(f lib.Flags, res *lib.Result, drv *lib.Driver) {
 		return
 	}
 	for i, c := range cases {
-		tie.Record(fmt.Sprintf("%s/%s/%s/%v", c.Message, c.Name, c.Default, c.Stream), true, c, ans[i], answers[i])
+		tie.Record(fmt.Sprintf("%s/%s/%s/%v/%s/%v", c.Message, c.Name, c.Default, c.Stream, c.Transport, c.Prefilled), true, c, ans[i], answers[i])
+		if c.Stream {
+			tie.Count("stream-interceptor transport=" + strings.TrimRight(c.Transport, "0123456789") + " prefilled=" + fmt.Sprint(c.Prefilled))
+		}
 		switch {
 		case c.Name == "":
 			tie.Count("empty-name")
